@@ -38,7 +38,7 @@ def emit_node(n):
     if k in ("inline", "nested", "nested2", "nested3", "tryexcept"):
         parts.append(n["g"])
     parts += n.get("args", [])
-    for key in ("valid", "op", "count", "period", "value", "delay", "p", "q", "all", "eid", "ty"):
+    for key in ("valid", "op", "count", "period", "value", "delay", "p", "q", "all", "eid", "ty", "at"):
         if key in n and n[key] is not None:
             parts.append("%s=%s" % (key, n[key]))
     parts.append("id=%d" % n.get("id", 0))
@@ -322,7 +322,7 @@ class Model:
         for n in self.nodes:
             k = n["kind"]
             nid = n.get("id", 0)
-            if k in ("source", "ticker", "c1", "c2", "c3", "sample", "samplemid", "conv", "accum", "timer0", "timer1", "timer1v", "suml", "sumb"):
+            if k in ("source", "ticker", "c1", "c2", "c3", "sample", "samplemid", "conv", "sshot", "accum", "timer0", "timer1", "timer1v", "suml", "sumb"):
                 if self.fault_hit(nid, "start"):
                     self.failed = (nid, "start", t)
                     return
@@ -330,6 +330,8 @@ class Model:
                 sc = self.scripts.get(nid, {})
                 if sc:
                     self.request(n, t, min(sc), True)
+            elif k == "sshot":
+                self.request(n, t, n["at"], True)         # asked for in start() through the stateless SingleShotScheduler
             elif k == "ticker":
                 self.state[n["name"]] = 0
                 self.pending[n["name"]].add(t)
@@ -488,6 +490,17 @@ class Model:
                         if w:
                             self.write(n, t, val)
                     self.run_user(n, t, views, body)
+            elif k == "sshot":
+                v = self.view(n["args"][0], t)
+                if self.quirks == "sshot" and not due and (not n["args"][0].startswith("~") and v[1]) and any(w > t for w in self.pending[name]):
+                    # engine behaviour (known finding F19): the stateless single-shot request lives only in the graph's one
+                    # schedule slot per node; an earlier input-driven evaluation overwrites it and nothing re-arms it
+                    self.sshot_lost = getattr(self, "sshot_lost", 0) + len(self.pending[name])
+                    self.pending[name].clear()
+                if due or (not n["args"][0].startswith("~") and v[1]):
+                    def body(n=n, v=v):
+                        self.write(n, t, norm((v[2] if v[0] else 0) + (1000 if t == n["at"] else 0)))
+                    self.run_user(n, t, [v], body)
             elif k == "conv":
                 v = self.view(n["args"][0], t)
                 if not n["args"][0].startswith("~") and v[1] and v[0]:
@@ -582,8 +595,8 @@ class Model:
                         return
 
 
-def predicted(prog):
-    m = Model(copy.deepcopy(prog))
+def predicted(prog, quirks=True):
+    m = Model(copy.deepcopy(prog), quirks=quirks)
     cycles, events = m.run()
     return m, cycles, events
 
